@@ -87,6 +87,7 @@ func (g *tryGen) body(depth int) MalType {
 			// arity error of a user function: the error value a handler sees (its text included) is part of what the program computes
 			return []MalType{ls(sy("f-throw")), ls(sy("f-throw"), 1, 2), ls(ls(sy("fn"), vc(sy("a"), sy("b")), sy("a")), 1)}[r.intn(3)]
 		}
+		g.noText = true           // the text of reflect's panic is Go's business: handlers of this program do not print it
 		return call1("+", 1, "s") // type error (reflect panic recovered)
 	case 7, 8:
 		return call1("trace!", r.intn(9))
